@@ -53,11 +53,23 @@ class LeanBuild:
             from extract import regen  # noqa: WPS433  (harness/extract)
 
             gen_msgs = regen.regenerate(REPO, LEAN_DIR)
-            r = sh("lake build CvModel CvGen CvProofs CvProps cvdriver 2>&1", cwd=LEAN_DIR, timeout=7200)
+            r = sh("lake build CvModel CvGen cvdriver 2>&1", cwd=LEAN_DIR, timeout=7200)
             ok = r.returncode == 0
             cls._built = ok
             cls.gen_msgs = gen_msgs
             return ok, (r.stdout + r.stderr)[-6000:]
+        finally:
+            fcntl.flock(lock, fcntl.LOCK_UN)
+            lock.close()
+
+    @staticmethod
+    def build_module(module: str):
+        """Builds one property module (and what it imports); a failure concerns that property only."""
+        lock = open(os.path.join(LEAN_DIR, ".lake", "cv.lock"), "w")
+        fcntl.flock(lock, fcntl.LOCK_EX)
+        try:
+            r = sh(f"lake build {module} 2>&1", cwd=LEAN_DIR, timeout=7200)
+            return r.returncode == 0, (r.stdout + r.stderr)[-4000:]
         finally:
             fcntl.flock(lock, fcntl.LOCK_UN)
             lock.close()
@@ -230,6 +242,12 @@ class Check:
             if not m.get("ok", True) and self.pid in m.get("properties", [self.pid]):
                 self.obligations.append((m["name"], False, m.get("detail", "")))
                 self.broken.append({"what": m["name"], "detail": m.get("detail", "")})
+        okm, logm = LeanBuild.build_module(module)
+        if not okm:
+            for t in theorems:
+                self.obligations.append((t, False, "module does not build"))
+            self.broken.append({"what": f"lake build {module}", "detail": logm[-2500:]})
+            return False
         hits = LeanBuild.forbidden_tokens()
         self.obligations.append(("no sorry/admit/axiom/native_decide/bv_decide/implemented_by/unsafe in lean/", not hits, hits[:5]))
         if hits:
